@@ -246,7 +246,7 @@ Theorem C02_loop_source_to_fully_optimised_partial :
     forall tl te, tf_body tf = tl ++ [TRet (Some te)] -> length tl = length l ->
     forallb tok (flat_map (wtopexprs n) tl ++ [te]) = true ->
     lits_exact (flat_map tflits (flat_map (wtopexprs n) tl ++ [te])) -> (forall q, In q (flat_map tflits (flat_map (wtopexprs n) tl ++ [te])) -> PrimFloat.eqb q q = true) ->
-    Forall (fresh_decl (glnames M) (argnames fn)) l ->
+    Forall (fresh_decl (glnames M) (argnames fn)) l -> fors_fresh (glnames M) (argnames fn) (fenv M fn) l ->
     forall T N, cc_hyps_b F T N = true -> vals_exact (fold_vals F (fn_consts F ++ N)) -> flow_hyps_b (cc_apply T (fn_consts F ++ N) F) = true ->
     let F'' := opt_load_after_store (cc_apply T (fn_consts F ++ N) F) in
     forall (P : program) (ws : list rval) (g : RefSem.frame) (vs : vmstate),
